@@ -126,7 +126,9 @@ def generate(prop, rng):
                             "prompt": rng.choice([None, "decline"]), "link": rng.choice(links),
                             "force": rng.random() < 0.15, "as_file": rng.random() < 0.2,
                             # "no target": the path is no longer wanted at all and is to be removed
-                            "no_target": rng.random() < 0.15})
+                            "no_target": rng.random() < 0.15,
+                            # a workspace file cannot be opened for reading while the workspace is looked at
+                            "read_fault": ({"nth": rng.randint(1, 4), "exc": "EACCES"} if rng.random() < 0.15 else None)})
     else:
         for _ in range(rng.randint(4, 12)):
             o = gen.weighted(rng, [(3, "materialise"), (3, "save_link"), (4, "user_write"), (2, "user_delete"),
@@ -343,6 +345,9 @@ def _exec_c05_checkout(sc, ctx, env):
             if op.get("no_target"):
                 target_obj = None
                 ctx.probe("checkout_without_target")
+            if op.get("read_fault") and not op["force"]:
+                ctx.seam.faults = [{"at": ("open_r",), "match": "ws/", "sub": True, "nth": op["read_fault"]["nth"],
+                                    "exc": op["read_fault"]["exc"], "name": "ws_read", "count": 1, "sticky": True}]
             try:
                 checkout(
                     path, env.w.localfs, target_obj, env.odb, force=op["force"], relink=op["relink"],
@@ -350,6 +355,8 @@ def _exec_c05_checkout(sc, ctx, env):
                 )
             except Exception as exc:  # noqa: BLE001
                 raised = exc
+            finally:
+                ctx.seam.faults = []
             if op["force"]:
                 continue
             after = model.files_of(model.snapshot(path))
